@@ -215,8 +215,6 @@ def g_t4(langs=LANGS, cfgs=("s",), selffind=False):
                 out.append(I("t4_distinct", cfg=c, defs=d + ["UNSORTED=1"], tus=["lang", "lang_" + l], cap=900, rss=2.0))
             if selffind:
                 out.append(I("t4_selffind", cfg=c, defs=d, tus=["lang", "lang_" + l], cap=1800, rss=7.0))
-                out.append(I("t4_selfcheck", cfg=c + "d", defs=d + ["SELFCHECK=1"], tus=["lang", "lang_" + l, "dependency"],
-                             flags=["--max-field-sensitivity-array-size", "600"], cap=1800, rss=6.0))
                 if RULE_OF[l] in (1, 3):
                     out.append(I("t4_abbrevfind", cfg=c, defs=d + ["ABBREV=1"], tus=["lang", "lang_" + l], cap=2400, rss=12.0))
     return out
